@@ -355,5 +355,5 @@ def _run(case):
 PARTS = [
     Part('modification-mappings', _run, strategy=_strategy, examples={'quick': 800, 'thorough': 20000},
          floors={'same-modification-in-separate-groups': 0.15, 'two-modifications-on-one-residue': 0.1,
-                 'modification-without-mapping': 0.03, 'neighbouring-modified-residues': 0.2}),
+                 'modification-without-mapping': 0.02, 'neighbouring-modified-residues': 0.2}),
 ]
